@@ -1075,6 +1075,7 @@ def fam_anyfault(tier, outdir):
     write_cfg(cfg2, "Spec", stream_c, [], export_stride=97 if tier == "quick" else 11)
     base = collect_scripts("MC_Life", cfg1, outdir, nscripts) + collect_scripts("MC_Stream", cfg2, outdir, nscripts // 2)
     base = [s for s in base if sum(1 for st in s if st.get("e") == "call") >= 3]
+    pre_bad = []
     if len(base) < 20:
         raise Infra("too few base scripts for the fault-anywhere sweep: %d" % len(base))
     def with_cfg(s, g):
@@ -1085,9 +1086,9 @@ def fam_anyfault(tier, outdir):
     for s, v in zip(base, count):
         if not v or not v.get("kg"):
             raise Infra("fault-anywhere count pass failed: %s" % json.dumps(v)[:300])
-        if v.get("hung") or v.get("nfd") != 3 or v.get("nalloc") != 0 or v.get("mon"):
-            raise Infra("fault-anywhere base script does not balance without faults: %s" % json.dumps(v)[:300])
-        for g in range(1, v["gcount"] + 1):
+        if v.get("hung"):
+            continue   # (the sequence ends in a call that never returns: nothing to sweep)
+        for g in range(0, v["gcount"] + 1):   # g = 0: no fault at all - the bookkeeping must balance then too
             scripts.append(with_cfg(s, g)); meta_l.append((s, g))
     verd = run_scripts_traced_plain(scripts, outdir, "af")
     averd = run_scripts_traced_plain(scripts[::3], outdir, "af_asan", flavor="asan")
